@@ -211,6 +211,27 @@ package proxy
 //@   ensures [no-vhost] p.virtualHost == nil ==> len(result) == 0
 //@   ensures [cleaned-lowercase-host] p.virtualHost != nil ==> called(low) && streq(result, res(low))
 
+// Dispatch on a kick / failed connection (C17 "sent to the next listed server, else disconnected with the reason"):
+// the failed server is the one excluded from the search; no server left -> disconnect result carrying the reason, else a
+// redirect to exactly the server found; the redirect connects to that server, and when the redirect target itself fails
+// or rejects the login, it is THAT server (not the one originally kicked from) that the next search excludes.
+//@ func (*connectedPlayer).handleConnectionErr2
+//@   props C17
+//@   requires p.tryIndex >= 0
+//@   at-call nextServerToTry as nx: assert [the-failed-server-is-excluded] arg0 == p && arg1 == rs
+//@   at-call newKickedFromServerEvent as ev: assert [event-names-the-failed-server] arg1 == rs
+//@   at-call newKickedFromServerEvent as ev2: assert [none-left-disconnects-with-the-reason] called(nx) && res(nx) == nil ==> dyntype(arg4, "DisconnectPlayerKickResult") && cast(arg4, *DisconnectPlayerKickResult).Reason == friendlyReason
+//@   at-call newKickedFromServerEvent as ev3: assert [next-listed-server-is-the-redirect-target] called(nx) && res(nx) != nil ==> dyntype(arg4, "RedirectPlayerKickResult") && cast(arg4, *RedirectPlayerKickResult).Server == res(nx)
+//@   at-call handleKickEvent as hk: assert [the-event-is-dispatched] arg0 == p && arg1 == res(ev)
+
+//@ func (*connectedPlayer).handleKickEvent
+//@   props C17
+//@   at-call Result as er: assert arg0 == e
+//@   at-call createConnectionRequestWith as rq: assert [redirect-connects-to-the-chosen-server] called(er) && dyntype(res(er), "RedirectPlayerKickResult") && arg1 == cast(res(er), *RedirectPlayerKickResult).Server
+//@   at-call handleConnectionErr as he: assert [failed-redirect-target-is-excluded-next] called(er) && arg0 == p && arg1 == cast(res(er), *RedirectPlayerKickResult).Server
+//@   at-call handleDisconnectWithReason as hd: assert [rejecting-redirect-target-is-excluded-next] called(er) && arg0 == p && arg1 == cast(res(er), *RedirectPlayerKickResult).Server
+//@   at-call Disconnect#1 as dc: assert [disconnect-result-carries-its-reason] called(er) && dyntype(res(er), "DisconnectPlayerKickResult") && arg1 == cast(res(er), *DisconnectPlayerKickResult).Reason
+
 // ---- C11 / C12: player and server registries ---------------------------------------------------------------
 // All registry maps are touched (read, written, ranged over, measured) only while their lock is held; map objects that
 // belong to a guarded field stay guarded after the field has been read (ranging over them after Unlock is an error).
